@@ -69,6 +69,8 @@ class PhaseShift():
         for i, dim in enumerate(self.periodic):
             points_t[:, dim] = (points_t[:, dim] + (-1 if inverse else +1) *
                                 (-self.centers[i] + 0.5)) % 1
+            # Rounding can turn a tiny negative number into exactly 1.
+            points_t[points_t[:, dim] >= 1, dim] -= 1
         return points_t
 
     def write(self, group):
